@@ -16,11 +16,20 @@ use std::{
 use env::*;
 use midnight_proofs::dev::InstanceValue;
 use midnight_zk_stdlib::Relation;
-use midnight_zkir::{Instruction, IrType, IrValue, Operation, ZkirRelation};
+use midnight_zkir::{IrType, IrValue, Operation, ZkirRelation};
 use oracle::*;
 use prog::*;
 use serde_json::json;
 use vcore::{catch, panic_site, CaseOut, Ctx, Level, Tier, Viol};
+
+/// The case key of the replay file given on the command line, if any.
+fn replay_case_key() -> Option<String> {
+    let args: Vec<String> = std::env::args().collect();
+    let i = args.iter().position(|a| a == "--replay")?;
+    let txt = std::fs::read_to_string(args.get(i + 1)?).ok()?;
+    let v: serde_json::Value = serde_json::from_str(&txt).ok()?;
+    v["case_key"].as_str().map(|s| s.to_string())
+}
 
 fn trace() -> bool {
     std::env::var("VC18_TRACE").is_ok()
@@ -103,9 +112,16 @@ fn gen_depth1(tier: Tier, seed: u64) -> Vec<Prog> {
             }
         }
     }
+    // quick: the valid constants take part in the unary programs only (the zero BigUint variable
+    // and the malformed constant stay)
+    let env2: Vec<&Ent> = env
+        .iter()
+        .filter(|e| tier.is_thorough() || e.is_var() || e.ty().is_none())
+        .filter(|e| tier.is_thorough() || e.name() != "y33")
+        .collect();
     for op in binary_ops() {
-        for a in &env {
-            for b in &env {
+        for a in &env2 {
+            for b in &env2 {
                 s.push(build(op, &[a, b], Tweak::None, None));
             }
         }
@@ -397,6 +413,7 @@ fn detail(p: &Prog) -> serde_json::Value {
         "expectation": format!("{:?}", p.expect),
         "variant": p.variant,
         "class": p.class,
+        "depth": p.depth,
     })
 }
 
@@ -417,6 +434,54 @@ struct Judged {
 
 fn key3(p: &Prog, kind: &str) -> String {
     format!("{}:{}:{}", p.op, p.class, kind)
+}
+
+/// Index of the first instruction whose synthesis panics: prefixes of the program are
+/// synthesised (unknown witness first, then the known one).
+fn culprit(p: &Prog) -> Option<usize> {
+    for known in [false, true] {
+        for i in 1..=p.instrs.len() {
+            let Ok(Ok(rel)) = construct(&p.instrs[..i]) else { return None };
+            if synth_panics(&rel, if known { Some(&p.witness) } else { None }) {
+                return Some(i - 1);
+            }
+        }
+    }
+    None
+}
+
+/// Finding key of a panic on the in-circuit side: named after the instruction that panics (a
+/// program that loads a `Bytes(0)` variable panics in the `Load`, whatever the operation under
+/// test is).
+fn panic_key(p: &Prog, m: &str) -> String {
+    if is_arch_panic(m) {
+        return "used_chips:jubjub-constant-without-jubjub-load:in-circuit-panic".to_string();
+    }
+    let main_idx = p.instrs.len() - p.tail_publish - (!matches!(p.operation, Operation::Publish)) as usize;
+    match culprit(p) {
+        Some(i) if i != main_idx => match p.instrs[i].operation {
+            Operation::Load(t) => format!("Load:{}:in-circuit-panic", load_class(&t)),
+            Operation::Publish if i > main_idx => format!("Publish:output-of-{}:{}:in-circuit-panic", p.op, p.class),
+            op => format!("{}:inside-prefix:in-circuit-panic", op_name(&op)),
+        },
+        _ => key3(p, "in-circuit-panic"),
+    }
+}
+
+/// `read_relation`, and when it fails on the exact bytes, once more with one trailing zero byte
+/// (it decodes a `usize` after the program; see the finding `roundtrip:binary:...`).
+fn read_binary_lenient(b: &[u8]) -> (Result<Result<ZkirRelation, String>, String>, bool) {
+    match read_binary(b) {
+        Ok(Err(e)) => {
+            let mut b2 = b.to_vec();
+            b2.push(0);
+            match read_binary(&b2) {
+                Ok(Ok(r)) => (Ok(Ok(r)), true),
+                _ => (Ok(Err(e)), false),
+            }
+        }
+        r => (r, false),
+    }
 }
 
 /// One program x witness through both sides.
@@ -531,7 +596,7 @@ fn judge(p: &Prog, comp: Option<&Comp>, rt_eval: bool) -> Judged {
     match (&offp, &off) {
         (Off::Panic(m), _) => {
             out.viol(Viol::new(
-                key3(p, "off-circuit-panic"),
+                if m.contains("zero modulus") { "ModExp:modulus=0:off-circuit-panic".to_string() } else { key3(p, "off-circuit-panic") },
                 format!("off-circuit evaluation (public_inputs on the program without Publish) panicked: {m}; in-circuit: {}", inc.text()),
                 d(),
             ));
@@ -557,7 +622,7 @@ fn judge(p: &Prog, comp: Option<&Comp>, rt_eval: bool) -> Judged {
                         out.counter(&format!("crash-unsat:{}", panic_site(m)), 1);
                     } else {
                         out.viol(Viol::new(
-                            key3(p, "in-circuit-panic"),
+                            panic_key(p, m),
                             format!("off-circuit returns Err({e}) but the in-circuit side panics instead of returning an error: {m}"),
                             d(),
                         ));
@@ -578,75 +643,84 @@ fn judge(p: &Prog, comp: Option<&Comp>, rt_eval: bool) -> Judged {
                 ));
             } else {
                 out.viol(Viol::new(
-                    key3(p, "in-circuit-panic"),
+                    panic_key(p, m),
                     format!("off-circuit evaluation succeeds; compiling the circuit panics (reached through public_inputs): {m}; MockProver run: {}", inc.text()),
                     d(),
                 ));
             }
         }
-        (Off::Ok(_), Off::Ok(pis)) => match &inc {
-            Inc::Sat => {
-                let enc = enc.clone().unwrap_or_default();
-                if io.exposed != enc {
-                    out.viol(Viol::new(
-                        key3(p, "exposed-vector-differs-from-encoded-public-inputs"),
-                        format!("circuit exposes {:?}, format_instance(public_inputs) = {:?}", io.exposed, enc),
-                        d(),
-                    ));
-                } else {
-                    out.count("agree:ok-sat", 1);
-                    out.counter(&format!("ok-sat:{}", p.op), 1);
-                    if ill {
-                        out.viol(Viol::new(
-                            key3(p, "accepted-by-both-sides-but-not-documented"),
-                            format!("both sides accept (published {:?})", pis.iter().map(|x| x.1).collect::<Vec<_>>()),
-                            d(),
-                        ));
-                    } else {
-                        ok_types = Some(pis.iter().map(|x| x.1).collect());
-                    }
-                }
-                // instance binding: every single-position edit must be rejected
-                if let Some(prover) = io.prover.as_mut() {
-                    let empty = std::iter::empty::<usize>();
-                    for pos in 0..enc.len() {
-                        for (name, newv) in [("+1", InstanceValue::Assigned(enc[pos] + F::from(1))), ("padding", InstanceValue::Padding)] {
-                            if name == "padding" && enc[pos] == F::from(0) {
-                                continue;
-                            }
-                            let old = prover.instance()[1][pos].clone();
-                            prover.instance_mut()[1][pos] = newv;
-                            let ok = catch(|| prover.verify_at_rows(empty.clone(), empty.clone()).is_ok()).unwrap_or(false);
-                            prover.instance_mut()[1][pos] = old;
-                            out.eval(if ok { "instance-edit:accepted" } else { "instance-edit:rejected" }, true);
-                            if ok {
-                                out.viol(Viol::new(key3(p, "instance-not-bound"), format!("editing public input {pos} ({name}) is not rejected"), d()));
+        (Off::Ok(_), Off::Ok(pis)) => {
+            let encv = enc.clone().unwrap_or_default();
+            let exposed_known = matches!(inc, Inc::Sat | Inc::Unsat(_));
+            if exposed_known && io.exposed != encv {
+                // the two sides computed different public values (or a different number of them)
+                out.viol(Viol::new(
+                    key3(p, "exposed-vector-differs-from-encoded-public-inputs"),
+                    format!(
+                        "off-circuit evaluation succeeds; the circuit exposes {:?} but format_instance(public_inputs) = {:?} (MockProver with the latter as instance: {})",
+                        io.exposed,
+                        encv,
+                        inc.text()
+                    ),
+                    d(),
+                ));
+            } else {
+                match &inc {
+                    Inc::Sat => {
+                        out.count("agree:ok-sat", 1);
+                        out.counter(&format!("ok-sat:{}", p.op), 1);
+                        if ill {
+                            out.viol(Viol::new(
+                                key3(p, "accepted-by-both-sides-but-not-documented"),
+                                format!("both sides accept (published {:?})", pis.iter().map(|x| x.1).collect::<Vec<_>>()),
+                                d(),
+                            ));
+                        } else {
+                            ok_types = Some(pis.iter().map(|x| x.1).collect());
+                        }
+                        // instance binding: every single-position edit must be rejected
+                        if let Some(prover) = io.prover.as_mut() {
+                            let empty = std::iter::empty::<usize>();
+                            for pos in 0..encv.len() {
+                                for (name, newv) in [("+1", InstanceValue::Assigned(encv[pos] + F::from(1))), ("padding", InstanceValue::Padding)] {
+                                    if name == "padding" && encv[pos] == F::from(0) {
+                                        continue;
+                                    }
+                                    let old = prover.instance()[1][pos].clone();
+                                    prover.instance_mut()[1][pos] = newv;
+                                    let ok = catch(|| prover.verify_at_rows(empty.clone(), empty.clone()).is_ok()).unwrap_or(false);
+                                    prover.instance_mut()[1][pos] = old;
+                                    out.eval(if ok { "instance-edit:accepted" } else { "instance-edit:rejected" }, true);
+                                    if ok {
+                                        out.viol(Viol::new(key3(p, "instance-not-bound"), format!("editing public input {pos} ({name}) is not rejected"), d()));
+                                    }
+                                }
                             }
                         }
                     }
+                    Inc::Unsat(s) => out.viol(Viol::new(
+                        key3(p, "honest-witness-unsatisfiable"),
+                        format!("off-circuit evaluation succeeds and the circuit exposes the same public inputs, but the honest witness is rejected: {s}"),
+                        d(),
+                    )),
+                    Inc::SynthErr(s) => out.viol(Viol::new(
+                        key3(p, "off-circuit-accepts-in-circuit-rejects"),
+                        format!("off-circuit evaluation succeeds, synthesis with the witness fails: {s}"),
+                        d(),
+                    )),
+                    Inc::Panic(m) => out.viol(Viol::new(
+                        panic_key(p, m),
+                        format!("off-circuit evaluation succeeds, MockProver::run panics: {m}"),
+                        d(),
+                    )),
                 }
             }
-            Inc::Unsat(s) => out.viol(Viol::new(
-                key3(p, "honest-witness-unsatisfiable"),
-                format!("off-circuit evaluation succeeds but the circuit rejects the honest witness with instance format_instance(P): {s}; exposed {:?}, encoded {:?}", io.exposed, enc),
-                d(),
-            )),
-            Inc::SynthErr(s) => out.viol(Viol::new(
-                key3(p, "off-circuit-accepts-in-circuit-rejects"),
-                format!("off-circuit evaluation succeeds, synthesis with the witness fails: {s}"),
-                d(),
-            )),
-            Inc::Panic(m) => out.viol(Viol::new(
-                key3(p, "in-circuit-panic"),
-                format!("off-circuit evaluation succeeds, MockProver::run panics: {m}"),
-                d(),
-            )),
-        },
+        }
     }
     // ---- outcomes of the round-tripped relations on the same witness
     if rt_eval {
         let viaj = read_json(&to_json(&p.instrs));
-        let viab = write_bytes(&rel).map(|b| read_binary(&b));
+        let viab = write_bytes(&rel).map(|b| read_binary_lenient(&b).0);
         for (name, r) in [("json", Some(viaj)), ("binary", viab.ok())] {
             let Some(Ok(Ok(r2))) = r else {
                 out.count("roundtrip-eval:unreadable", 1);
@@ -687,7 +761,7 @@ fn compile_case(p: &Prog) -> (CaseOut, Option<Comp>) {
         Err(m) => {
             out.eval("compile:panic", true);
             out.viol(Viol::new(
-                key3(p, "in-circuit-panic"),
+                panic_key(p, m),
                 format!("compiling the circuit (unknown witness, dummy_synthesize_run) panics: {m}"),
                 d(),
             ));
@@ -723,9 +797,20 @@ fn compile_case(p: &Prog) -> (CaseOut, Option<Comp>) {
                 Ok(_) => out.viol(Viol::new("roundtrip:binary:instructions-changed", "write_relation bytes decode to different instructions", d())),
                 Err(e) => out.viol(Viol::new("roundtrip:binary:undecodable", e, d())),
             }
-            match read_binary(&b0) {
+            let (r, padded) = read_binary_lenient(&b0);
+            if padded {
+                out.viol(Viol::new(
+                    "roundtrip:binary:read_relation-rejects-write_relation-output",
+                    format!(
+                        "read_relation fails on exactly the bytes written by write_relation ({}); it succeeds when one more byte follows (it decodes a (Program, usize) pair from the reader)",
+                        read_binary(&b0).ok().and_then(|r| r.err()).unwrap_or_default()
+                    ),
+                    d(),
+                ));
+            }
+            match r {
                 Ok(Ok(r2)) => match write_bytes(&r2) {
-                    Ok(b1) if b1 == b0 => out.eval("binary:roundtrip-identical", true),
+                    Ok(b1) if b1 == b0 => out.eval(if padded { "binary:roundtrip-identical(one trailing byte supplied)" } else { "binary:roundtrip-identical" }, true),
                     _ => out.viol(Viol::new("roundtrip:binary:bytes-differ", "read_relation(write_relation(p)) writes different bytes", d())),
                 },
                 Ok(Err(e)) => out.viol(Viol::new("roundtrip:binary:read_relation-rejects", e, d())),
@@ -812,6 +897,62 @@ fn check_constants(cx: &mut Ctx) {
     });
 }
 
+/// Ill-formed serialised programs: the JSON reader and the binary reader must return an error
+/// value (the binary reader is only given truncations of a valid encoding here; hostile length
+/// prefixes are C16's subject).
+fn check_malformed_serialised(cx: &mut Ctx) {
+    let jsons: Vec<&str> = vec![
+        "",
+        "{}",
+        "[]",
+        "null",
+        r#"{"instructions": 5}"#,
+        r#"{"instructions": [5]}"#,
+        r#"{"instructions": [{}]}"#,
+        r#"{"instructions": [{"op": "frobnicate"}]}"#,
+        r#"{"instructions": [{"op": {"load": "Quux"}, "outputs": ["a"]}]}"#,
+        r#"{"instructions": [{"op": {"load": {"Bytes": -1}}, "outputs": ["a"]}]}"#,
+        r#"{"instructions": [{"op": {"load": {"Bytes": 18446744073709551616}}, "outputs": ["a"]}]}"#,
+        r#"{"instructions": [{"op": {"load": {"BigUint": 4294967296}}, "outputs": ["a"]}]}"#,
+        r#"{"instructions": [{"op": {"mod_exp": -1}, "inputs": ["a", "b"], "outputs": ["c"]}]}"#,
+        r#"{"instructions": [{"op": "publish", "inputs": "a"}]}"#,
+        r#"{"instructions": [{"op": "publish", "inputs": [1]}]}"#,
+        r#"{"instructions": [{"op": "publish", "inputs": ["a"], "outputs": ["b"]}]}"#,
+        r#"{"instructions": [{"op": "add", "inputs": ["a"], "outputs": ["b"]}]}"#,
+        r#"{"instructions": [{"op": {"load": "Native"}}]}"#,
+        r#"{"instructions": [{"op": "publish", "inputs": ["a"]}"#,
+    ];
+    let cases: Vec<(String, String)> = jsons.iter().enumerate().map(|(i, j)| (format!("json#{i}"), j.to_string())).collect();
+    cx.run_cases("malformed-json", &cases, |j| {
+        let mut out = CaseOut::batch();
+        match read_json(j) {
+            Ok(Err(_)) => out.eval("rejected", true),
+            Ok(Ok(_)) => out.viol(Viol::new("read:malformed-json:accepted", format!("ZkirRelation::read accepts {j}"), json!({"json": j}))),
+            Err(m) => out.viol(Viol::new("read:malformed-json:panic", format!("ZkirRelation::read panics on {j}: {m}"), json!({"json": j}))),
+        }
+        out
+    });
+    // every proper prefix of a valid binary encoding
+    let prog = vec![
+        ins(Operation::Load(IrType::BigUint(97)), &[], &["a", "b"]),
+        ins(Operation::ModExp(65537), &["a", "b"], &["c"]),
+        ins(Operation::IntoBytes(13), &["c"], &["d"]),
+        ins(Operation::FromBytes(IrType::JubjubScalar), &["d"], &["e"]),
+        ins(Operation::Publish, &["c", "Native:-0x01"], &[]),
+    ];
+    let bytes = bincode::encode_to_vec(&prog, bincode::config::standard()).expect("encode");
+    let cases: Vec<(String, Vec<u8>)> = (0..bytes.len()).map(|n| (format!("prefix{n}"), bytes[..n].to_vec())).collect();
+    cx.run_cases("truncated-binary", &cases, |b| {
+        let mut out = CaseOut::batch();
+        match read_binary(b) {
+            Ok(Err(_)) => out.eval("rejected", true),
+            Ok(Ok(_)) => out.viol(Viol::new("read_relation:truncated:accepted", format!("read_relation accepts a truncated encoding ({} bytes)", b.len()), json!({"bytes": vcore::hex(b)}))),
+            Err(m) => out.viol(Viol::new("read_relation:truncated:panic", format!("read_relation panics on a truncated encoding: {m}"), json!({"bytes": vcore::hex(b)}))),
+        }
+        out
+    });
+}
+
 fn main() {
     let mut cx = Ctx::from_args("C18", Level::Exploration);
     cx.worker_rayon_threads = Some(1);
@@ -837,26 +978,56 @@ fn main() {
     cx.assume("unsatisfiability of a failing evaluation is judged for the honest witness generator (no prover deviations: those are C04-C09's subject)");
     let (tier, seed) = (cx.tier, cx.seed);
     check_constants(&mut cx);
+    check_malformed_serialised(&mut cx);
     let comps: Mutex<HashMap<String, Comp>> = Mutex::new(HashMap::new());
 
     run_phase(&mut cx, "load-publish", gen_load_publish(seed), &comps, true);
     run_phase(&mut cx, "variants", gen_variants(seed), &comps, true);
     let d1 = gen_depth1(tier, seed);
     let n_d1 = d1.len();
+    let red_names: Vec<&'static str> = operand_env(tier, seed, true).iter().map(|e| e.name()).collect();
+    let over_reduced_env = |p: &Prog| {
+        n_outputs(&p.operation) > 0
+            && n_outputs(&p.operation) != usize::MAX
+            && p.instrs[p.instrs.len() - p.tail_publish - 1].inputs.iter().all(|i| red_names.contains(&i.as_str()))
+    };
+    // replaying a depth-2 case needs the depth-1 results of the candidate prefixes, which the
+    // runner does not execute in replay mode: evaluate them here
+    let replay_prefixes: Option<Vec<(Prog, Vec<IrType>)>> = match replay_case_key() {
+        Some(k) if k.starts_with("depth2") => {
+            let cands: Vec<&Prog> = d1.iter().filter(|p| over_reduced_env(p)).collect();
+            let res: Mutex<Vec<(usize, Vec<IrType>)>> = Mutex::new(vec![]);
+            let next = std::sync::atomic::AtomicUsize::new(0);
+            std::thread::scope(|sc| {
+                for _ in 0..cx.workers {
+                    sc.spawn(|| {
+                        vcore::in_pool(1, || loop {
+                            let i = next.fetch_add(1, std::sync::atomic::Ordering::SeqCst);
+                            if i >= cands.len() {
+                                break;
+                            }
+                            if let Ok(j) = catch(|| judge(cands[i], None, false)) {
+                                if let Some(t) = j.ok_types {
+                                    res.lock().unwrap().push((i, t));
+                                }
+                            }
+                        })
+                    });
+                }
+            });
+            let mut r = res.into_inner().unwrap();
+            r.sort_by_key(|x| x.0);
+            Some(r.into_iter().map(|(i, t)| (cands[i].clone(), t)).collect())
+        }
+        _ => None,
+    };
     let ok1 = run_phase(&mut cx, "depth1", d1, &comps, tier.is_thorough());
+    let ok1 = replay_prefixes.unwrap_or(ok1);
     cx.extra("depth1_programs", json!(n_d1));
     cx.extra("depth1_ok_prefixes", json!(ok1.len()));
     if tier.is_thorough() {
         // prefixes over the reduced environment only
-        let red: Vec<&'static str> = operand_env(tier, seed, true).iter().map(|e| e.name()).collect();
-        let prefixes: Vec<(Prog, Vec<IrType>)> = ok1
-            .into_iter()
-            .filter(|(p, t)| {
-                !t.is_empty()
-                    && n_outputs(&p.operation) > 0
-                    && p.instrs[p.instrs.len() - p.tail_publish - 1].inputs.iter().all(|i| red.contains(&i.as_str()))
-            })
-            .collect();
+        let prefixes: Vec<(Prog, Vec<IrType>)> = ok1.into_iter().filter(|(p, t)| !t.is_empty() && over_reduced_env(p)).collect();
         cx.extra("depth2_prefixes", json!(prefixes.len()));
         let d2 = gen_depth2(tier, seed, &prefixes);
         cx.extra("depth2_programs", json!(d2.len()));
@@ -872,6 +1043,5 @@ fn main() {
     cx.require(cx.counter_value("ill-seen") > 50, "ill-typed / ill-formed programs must be part of the space");
     cx.require(cx.class_count("variants:ctor:err:bad-arity") > 10, "wrong-arity variants must be rejected by the constructor");
     cx.require(cx.class_count("depth1:instance-edit:rejected") > 50, "instance edits must be rejected somewhere");
-    let _: Option<Instruction> = None;
     cx.finish()
 }
